@@ -161,8 +161,9 @@ def request(case):
         r = request(d)
         if r is None or a['src'] != 'qube':
             return None
-        if b['src'] == 'ma' and a['kind'] != 'float' and b['kind'] == 'float' and not a['shape'] and not b['shape']:
-            return None           # KF-C04-10 with a 0-d MaskedArray: the rebound value is a MaskedArray; oracle only
+        if b['src'] == 'ma' and not a['shape'] and not b['shape'] and \
+                ((a['kind'] != 'float' and b['kind'] == 'float') or op in ('iadd', 'isub')):
+            return None           # KF-C04-10 / KF-C04-11: a single value rebound to a 0-d MaskedArray / numpy.ma.masked; oracle only
         if op == 'imul' and a['cls'] == 'Matrix3' and b['src'] == 'qube' and len(b.get('numer', [])) != 2:
             return None           # KF-C04-9 (as_matrix3 re-reads leading axes): judged by the oracle only
         return ['c04', 'inplace', R.DIRECT[op]] + r[2:-1] + [blank_sx(case)]
